@@ -47,6 +47,10 @@ def run(chk):
                                 text="literal tokens (null / true / false / NaN): from every reachable (configuration, saved text) pair, "
                                      "feeding two bytes in one call and in two calls gives the same status, consumed count, successor "
                                      "configuration, saved text and constructor calls")
+    with chk.shared():
+        # a finished number followed by a byte that arrives in the next call must end exactly as it does in one call (shared with
+        # C16: the token buffer is modelled and the bytes are fed one per call)
+        numrules.rule_trailing_after_number(chk, prog, "C16.X8n")
     chk.undecided_clauses += [
         "equality of the *values* produced by a split and an unsplit parse (only status, value presence, end position and successor "
         "configuration are compared; number and literal token text is modelled by R8 / R9)",
